@@ -3,7 +3,7 @@ From Coq Require Import NArith Bool List.
 Import ListNotations.
 From XetModel Require Import Base.Codec Gen.ShardLayout Gen.ShardFacts Model.Blake3 Model.Merkle Model.Shard
   Proofs.CodecProofs Proofs.ShardProofs Proofs.DedupProofs Proofs.KeyedProofs.
-From XetModel Require Import Gen.ManagerFacts Model.Manager Proofs.ManagerProofs.
+From XetModel Require Import Gen.ManagerFacts Model.Manager Proofs.ManagerProofs Proofs.ShardWholeProofs Proofs.ExpiryProofs.
 Open Scope N_scope.
 
 (* keying a block: headers, lengths, offsets unchanged; every chunk hash replaced by keyed key h, which is h
@@ -72,9 +72,24 @@ Theorem C18_keyed_collection_chunk_found : forall cap ops, N.of_nat (length ops)
     exists n sg, mgr_query b (q0 :: qr) = Found (Some (n, sg)).
 Proof. exact registered_chunk_found. Qed.
 
+
+(* export_with_expiration (the bytes up to the footer offset, then the footer with a new expiry) of a serialized shard, keyed
+   or not, is byte for byte the shard obtained by serializing the same records, tables and key with that expiry: only the
+   expiry field changes, so the re-exported file loads back, lists the same records and answers every lookup as before *)
+Theorem C18_export_with_expiration_changes_only_the_expiry : forall files cass ctbl key created expiry e,
+  export_with_expiration (w_bs files cass ctbl key created expiry) (w_ft files cass ctbl key created expiry) e = w_bs files cass ctbl key created e.
+Proof. exact export_with_expiration_is_reserialization. Qed.
+Theorem C18_export_with_expiration_loads : forall files cass ctbl key created expiry e, ShardOk files cass ctbl key created e ->
+  let bs' := export_with_expiration (w_bs files cass ctbl key created expiry) (w_ft files cass ctbl key created expiry) e in
+  load_footer bs' = Some (w_ft files cass ctbl key created e)
+  /\ read_all_files bs' (w_ft files cass ctbl key created e) = Some files /\ read_all_cas bs' (w_ft files cass ctbl key created e) = Some cass.
+Proof. exact export_with_expiration_loads. Qed.
+
 Print Assumptions C18_keyed_query_equiv.
 Print Assumptions C18_no_raw_hash_leak.
 Print Assumptions C18_export_cas_section_scan.
 Print Assumptions C18_expiry_rules.
 Print Assumptions C18_manager_answers_under_the_collection_key.
 Print Assumptions C18_keyed_collection_chunk_found.
+Print Assumptions C18_export_with_expiration_changes_only_the_expiry.
+Print Assumptions C18_export_with_expiration_loads.
